@@ -10,7 +10,7 @@ package params
 // The header (hash algorithm) version is a function of the height and the fork schedule only:
 // 4 from HF9, 3 from HF8, 2 from HF5, otherwise 1.
 //@ func ChainConfig.GetBlockVersion
-//@   requires c != nil && height != nil
+//@   requires[C14] c != nil && height != nil
 //@   ensures[C14] @schedule (forked(c, 9, height) ==> result == 4) && (!forked(c, 9, height) && forked(c, 8, height) ==> result == 3)
 //@     && (!forked(c, 9, height) && !forked(c, 8, height) && forked(c, 5, height) ==> result == 2)
 //@     && (!forked(c, 9, height) && !forked(c, 8, height) && !forked(c, 5, height) ==> result == 1)
